@@ -209,6 +209,10 @@ def calc_phase_permutation(
             return -1
         return 1
 
+    # n.b. negative axes are allowed, as for the actual array transposition
+    ndim = len(parities)
+    perm = tuple(ax % ndim for ax in perm)
+
     moved = set()
     swaps = 0
     for ax in perm:
